@@ -358,15 +358,28 @@ def coq_cols(cols):
     return "[" + "; ".join(one(c) for c in cols) + "]"
 
 
+HOOK_PREFIXES = ["verif:translate_wildcards ", "verif:deduplicate_select_items ", "verif:select_item ", "verif:select_items ", "verif:pq-names "]
+_hook_cache = {}
+
+
+def hook_events(srcs, targets):
+    """one compile per (source, target) serves every hook stream (harness c05_hooks keeps only the lines of HOOK_PREFIXES)"""
+    need = [(s_, t) for s_ in srcs for t in targets if (s_, t) not in _hook_cache]
+    if need:
+        for (s_, t), a in zip(need, harness("c05_hooks", [{"src": s_, "target": t, "prefixes": HOOK_PREFIXES} for s_, t in need])):
+            _hook_cache[(s_, t)] = a
+    reqs = [{"src": s_, "target": t} for s_ in srcs for t in targets]
+    return reqs, [_hook_cache[(r["src"], r["target"])] for r in reqs]
+
+
 def wildcard_stream(ck, srcs, targets=("sql.sqlite", "sql.duckdb", "sql.bigquery")):
     """Tie B for Model/Wildcards.v: every real call of translate_wildcards (hook) vs the model"""
-    reqs = [{"src": s, "target": t, "want": [], "msg_prefix": "verif:translate_wildcards"} for s in srcs for t in targets]
-    ans = harness("log", reqs)
+    reqs, ans = hook_events(srcs, targets)
     calls = {}
     for rq, a in zip(reqs, ans):
         for e in a.get("entries", []):
             m = e.get("Message")
-            if not m:
+            if not m or not m.startswith("verif:translate_wildcards "):
                 continue
             d = json.loads(m[len("verif:translate_wildcards "):])
             key = json.dumps(d["cols"])
@@ -392,15 +405,14 @@ def wildcard_stream(ck, srcs, targets=("sql.sqlite", "sql.duckdb", "sql.bigquery
                             lambda c: None)
 
 
-def dedup_stream(ck, srcs, targets=("sql.sqlite", "sql.postgres")):
+def dedup_stream(ck, srcs, targets=("sql.sqlite", "sql.duckdb")):
     """Tie B for Model/Dedup.v: every real call of deduplicate_select_items (second hook) vs the model"""
-    reqs = [{"src": s, "target": t, "want": [], "msg_prefix": "verif:deduplicate_select_items"} for s in srcs for t in targets]
-    ans = harness("log", reqs)
+    reqs, ans = hook_events(srcs, targets)
     calls = {}
     for rq, a in zip(reqs, ans):
         for e in a.get("entries", []):
             m = e.get("Message")
-            if m:
+            if m and m.startswith("verif:deduplicate_select_items "):
                 d = json.loads(m[len("verif:deduplicate_select_items "):])
                 calls.setdefault(json.dumps(d["items"]), (d, rq["src"]))
     keys = sorted(calls)
@@ -442,6 +454,145 @@ def dedup_stream(ck, srcs, targets=("sql.sqlite", "sql.postgres")):
         if got != d["kept"]:
             ck.disagreement("deduplicate_select_items: implementation differs from Model/Dedup.v (program %s)" % src.replace("\n", " | ")[:200],
                             {"items": d["items"], "implementation_kept": d["kept"], "model_kept": got, "prql": src}, lambda c: None)
+
+
+def _codes(x):
+    return "[" + ";".join(str(ord(c)) for c in x) + "]%N"
+
+
+def _strs(xs):
+    return "[" + "; ".join(_codes(x) for x in xs) + "]"
+
+
+def _shape_coq(e):
+    if isinstance(e, dict) and "compound" in e:
+        return "(ECompound %s)" % _strs([p if isinstance(p, str) else p[0] for p in e["compound"]])
+    if isinstance(e, dict) and "ident" in e:
+        v = e["ident"]
+        return "(EIdent %s)" % _codes(v if isinstance(v, str) else v[0])
+    return "EOther"
+
+
+def _shape_plain(e):
+    if isinstance(e, dict) and "compound" in e:
+        return (0, [p[0] for p in e["compound"]])
+    if isinstance(e, dict) and "ident" in e:
+        return (1, [e["ident"][0]])
+    return (2, [])
+
+
+def _item_plain(it):
+    """an item of the verif:select_items event -> the plain form Model/SelectItems.show_item prints; None = a shape the model does
+    not cover (declined, counted)"""
+    if not isinstance(it, dict):
+        return None
+    if "star" in it:
+        o = it["opts"]
+        if o.get("other") or any(not isinstance(p, list) for p in it["star"]):
+            return None
+        q = [p[0] for p in it["star"]]
+        if o.get("exclude") is not None:
+            return (2, (1, q), [x[0] for x in o["exclude"]])
+        if o.get("except") is not None:
+            return (2, (2, q), [x[0] for x in o["except"]])
+        return (2, (0, q), [])
+    if "col" in it:
+        sh = _shape_plain(it["col"])        # a NULL literal is "not an identifier" like any other expression
+        if "alias" in it:
+            return (1, sh, [it["alias"][0]])
+        return (0, sh, [])
+    return None
+
+
+def _dec(v):
+    """parse_term's value of `map show_item ..` -> the same plain form with python strings"""
+    out = []
+    for tag, (etag, parts), extra in v:
+        out.append((tag, (etag, ["".join(chr(c) for c in p_) for p_ in parts]), ["".join(chr(c) for c in x) for x in extra]))
+    return out
+
+
+def selectitems_stream(ck, srcs, targets=("sql.sqlite", "sql.duckdb", "sql.bigquery")):
+    """Tie for Model/SelectItems.v: EVERY real call of translate_select_items (hooks select-item bab53a0 + select-items 7fc85b6)
+    vs `select_items`: the items before de-duplication, the final items and the state of the `_expr_` generator afterwards, field by
+    field (identifier VALUES; quoting is C09's subject).  Inputs of a call: the `in` object of verif:select_items (columns with their
+    wildcard instance, excluded sets with the declarations of their members, column_names, next generated name, dialect answers),
+    the expression SHAPE of every non-star column from its verif:select_item event, the reserved column names from verif:pq-names."""
+    reqs, ans = hook_events(srcs, targets)
+    calls, n_events, n_pq = {}, 0, 0
+    for rq, a in zip(reqs, ans):
+        reserved, pend = None, []
+        for e in a.get("entries", []):
+            m = e.get("Message") or ""
+            name, _, js = m.partition(" ")
+            if name == "verif:pq-names":
+                reserved = json.loads(js).get("reserved_columns")
+                n_pq += 1
+            elif name == "verif:select_item":
+                pend.append(json.loads(js))
+            elif name == "verif:select_items":
+                d = json.loads(js)
+                n_events += 1
+                key = json.dumps([d["in"], [x["expr"] for x in pend], reserved], sort_keys=True)
+                calls.setdefault(key, (d, pend, reserved, rq["src"], rq["target"]))
+                pend = []
+    ck.coverage["select_items_events"] = n_events
+    ck.coverage["select_items_calls_distinct"] = len(calls)
+    if n_events == 0 or n_pq == 0:
+        # fail closed: a tree without the hooks gives no events
+        ck.violation("no verif:select_items / verif:pq-names event was produced: the select-item / select-items / pq-names hooks are missing from this tree",
+                     {"kind": "missing-hook", "hooks": ["bab53a0 select-item", "7fc85b6 select-items", "d5c1b7e pq-names"]}, no_input=True)
+        return
+    header = ("From Coq Require Import List Arith NArith.\nFrom PV Require Import Lib.ListX Model.Ident Model.NameGen Model.Wildcards Model.Dedup Model.SelectItems.\n"
+              "Import ListNotations.\n")
+    exprs, meta = [], []
+    for key in sorted(calls):
+        d, pend, reserved, src, target = calls[key]
+        i = d["in"]
+        m = re.fullmatch(r"_expr_(\d+)", i["gen"])
+        m2 = re.fullmatch(r"_expr_(\d+)", d["gen_after"])
+        want_items, want_final = [_item_plain(x) for x in d["items"]], [_item_plain(x) for x in d["final"]]
+        shapes = list(pend)
+        cols, ok = [], bool(m and m2) and reserved is not None and None not in want_items and None not in want_final
+        for c in i["cols"]:
+            if c["wild"] is None:
+                if not shapes or shapes[0]["cid"] != c["cid"]:
+                    ok = False
+                    break
+                cols.append("CCol %d %s" % (c["cid"], _shape_coq(shapes.pop(0)["expr"])))
+            else:
+                t_ = c["wild"]["table"]
+                cols.append("CStar %d %s" % (c["cid"], "None" if t_ is None else "(Some %s)" % _codes(t_)))
+        allv = json.dumps([d["items"], d["final"]])
+        if ok and (shapes or '\\"\\"' in allv or "``" in allv):
+            ok = False            # leftover item events, or an identifier that contains the quote character (doubled in the item's value)
+        if not ok:
+            ck.stat("selectitems", "declined")
+            continue
+        ex = "[" + "; ".join("(%d, [%s])" % (k, "; ".join("(%d, %s)" % (c_, "Some %s" % _codes(dc["single"]) if isinstance(dc, dict) and dc.get("single") is not None else "None")
+                                                              for c_, dc in v)) for k, v in i["excluded"]) + "]"
+        sup = {"none": "None", "exclude": "(Some XExclude)", "except": "(Some XExcept)"}[i["column_exclude"]]
+        names = "[" + "; ".join("(%d, %s)" % (c_, _codes(n_)) for c_, n_ in i["column_names"]) + "]"
+        exprs.append("(match select_items lower_ascii %s %s %s %s (mkn %s %s%%N) %s [%s] with Some (a, b, st) => (1%%N, map show_item a, map show_item b, counter st) "
+                     "| None => (0%%N, [], [], 0%%N) end)" % (_strs(reserved), sup, "true" if i["omit_ident_prefix"] else "false",
+                                                            "true" if i["supports_zero_columns"] else "false", names, m.group(1), ex, "; ".join(cols)))
+        meta.append((d, src, target, want_items, want_final, int(m2.group(1))))
+    vals = coq_eval(header, exprs) if exprs else []
+    for (d, src, target, want_items, want_final, want_n), v in zip(meta, vals):
+        nontriv = any(x[0] in (1, 2) for x in want_items) or len(want_items) != len(want_final)
+        ck.count("selectitems", json.dumps(d["in"], sort_keys=True) + json.dumps(d["items"]), nontrivial=nontriv)
+        for x in want_items:
+            ck.stat("selectitems", "item:" + {0: "unnamed", 1: "alias", 2: "star"}[x[0]])
+        if len(want_items) != len(want_final):
+            ck.stat("selectitems", "dedup-dropped" if len(want_final) < len(want_items) else "null-added")
+        got = None
+        if v is not None and isinstance(v, tuple) and len(v) == 4 and v[0] == 1:
+            got = (_dec(v[1]), _dec(v[2]), v[3])
+        want = ([(a, (b[0], list(b[1])), list(c_)) for a, b, c_ in want_items], [(a, (b[0], list(b[1])), list(c_)) for a, b, c_ in want_final], want_n)
+        if got != want:
+            ck.disagreement("translate_select_items: implementation differs from Model/SelectItems.v (program %s) [%s]" % (src.replace("\n", " | ")[:200], target),
+                            {"in": d["in"], "implementation": {"items": d["items"], "final": d["final"], "gen_after": d["gen_after"]},
+                             "model": repr(got)[:1500], "prql": src, "target": target}, lambda c: None)
 
 
 def star_stream(ck, recs, targets=("sql.duckdb", "sql.bigquery", "sql.snowflake")):
@@ -692,6 +843,7 @@ def run():
     srcs = sorted({r["prql"] for r in recs})
     wildcard_stream(ck, srcs)
     dedup_stream(ck, srcs)
+    selectitems_stream(ck, srcs)
     star_stream(ck, recs)
     sstring_stream(ck, ck.n(60, 600) * (3 if broken else 1))
     ck.proof_broken_violation(found_input=bool(ck.violations))
